@@ -328,6 +328,82 @@ def report(ctx, behs, results, viol, origin):
             )
 
 
+def binding_demo(ctx, behs, results, viol):
+    """Corrupt one recorded field of traces TLC accepted and require TLC to reject each with the
+    clause that field belongs to (the trace specification is bound to every field it judges)."""
+    import copy
+
+    def corrupt(lines, kind):
+        L2 = copy.deepcopy(lines)
+        for L in L2:
+            if kind == "faces" and L["ev"] == "Reopen" and L["st"] == "ok" and L["faces"] and len(L["faces"][0]) >= 3:
+                f = L["faces"][0]
+                f[0], f[1] = f[1], f[0]
+                return L2, "RoundTrip"
+            if kind == "names" and L["ev"] == "ToXarray" and L["fmt"] == "ugrid" and L["status"] == "ok":
+                L["names"] = L["names"] + ["edge_node_connectivity_x"]
+                return L2, "MetadataClosed"
+            if kind == "write" and L["ev"] == "Write" and L["ok"]:
+                L["ok"] = False
+                return L2, "Serialisable"
+            if kind == "template" and L["ev"] in ("Access", "ToXarray"):
+                L["tT"] = L["tT"] + ["edge_dimension"]
+                return L2, "TemplatesConstant"
+            if kind == "start_index" and L["ev"] == "ToXarray" and L["fmt"] == "ugrid" and L["status"] == "ok":
+                L["enc"]["start"] = 1
+                return L2, None  # WellFormed or EncodedFaces, depending on the mesh
+            if kind == "block" and L["ev"] == "ToXarray" and L["fmt"] == "exodus" and L["status"] == "ok" and L["enc"]["blocks"]:
+                L["enc"]["blocks"][0][0][0] = 0
+                return L2, "WellFormed"
+            if kind == "corner" and L["ev"] == "ToXarray" and L["fmt"] == "scrip" and L["status"] == "ok" and L["enc"]["corners"]:
+                c = L["enc"]["corners"][0]
+                c[0], c[1] = c[1], c[0]
+                return L2, "EncodedFaces"
+            if kind == "status" and L["ev"] == "ToXarray" and L["status"] == "ok":
+                L["status"] = "raise"
+                return L2, "Encodes"
+        return None, None
+
+    clean = [(b, r) for b, r in zip(behs, results) if not r["skipped"] and r["lines"] and b["t"] not in viol][:40]
+    kinds = ["faces", "names", "write", "template", "start_index", "block", "corner", "status"]
+    cb, cr, want = [], [], {}
+    t = 10**6
+    for kind in kinds:
+        n = 0
+        for b, r in clean:
+            lines, clause = corrupt(r["lines"], kind)
+            if lines is None:
+                continue
+            # a Write / Reopen that followed a now-failed step would not be consumable: cut the trace there
+            if kind == "status":
+                k = next(i for i, L in enumerate(lines) if L["ev"] == "ToXarray" and L["status"] == "raise")
+                lines = lines[: k + 1]
+            if kind == "write":
+                k = next(i for i, L in enumerate(lines) if L["ev"] == "Write" and not L["ok"])
+                lines = [L for i, L in enumerate(lines) if i <= k or not (L["ev"] == "Reopen" and L["via"] == "file" and L["k"] == lines[k]["k"])]
+            t += 1
+            for L in lines:
+                L["t"] = t
+            cb.append(dict(b, t=t))
+            cr.append(dict(r, lines=lines))
+            want[t] = (kind, clause)
+            n += 1
+            if n >= 3:
+                break
+    if len({k for k, _ in want.values()}) < len(kinds):
+        raise Machinery("binding demonstration: no accepted trace to corrupt for %s" % sorted(set(kinds) - {k for k, _ in want.values()}))
+    v2, _ = validate(ctx, cb, cr, "corrupt")
+    ctx.traces -= len(cb)
+    missed = []
+    for t, (kind, clause) in want.items():
+        got = {x[2] for x in v2.get(t, [])}
+        if not got or (clause is not None and clause not in got):
+            missed.append((kind, clause, sorted(got)))
+    if missed:
+        raise Machinery("binding demonstration: corrupted traces were accepted: %s" % missed[:5])
+    ctx.note("binding_demo_corrupted_traces_rejected", len(want))
+
+
 # ----------------------------------------------------------------------------- main
 def run(ctx):
     rng = random.Random(ctx.seed)
@@ -468,6 +544,7 @@ def run(ctx):
     ctx.note("behaviours_skipped", skipped)
     viol, drift = validate(ctx, behs, results, "gen")
     viol_big, drift_big = validate(ctx, big, results_big, "big")
+    binding_demo(ctx, behs, results, viol)
     report(ctx, behs, results, viol, "generated")
     report(ctx, big, results_big, viol_big, "sample/random input")
 
